@@ -78,6 +78,13 @@ def gen_case(rng, tier, i):
                 if rng.random() < 0.35:
                     qs.append(list(q))
             ops.append(["addn", w, qs])
+        elif r < 0.16 and cfg != "graph":
+            q = quad(ss)
+            extra = []
+            for _k in range(rng.randint(0, 2)):
+                e = quad(ss)
+                extra.append(e[:3])
+            ops.append(["addf", w, q, extra])
         elif r < 0.38:
             pool = [q for q in init if q[0] in ss]
             q = rng.choice(pool) if pool and rng.random() < 0.5 else quad(ss)
@@ -108,7 +115,7 @@ def _quads(mem, gn_rev, term_rev):
     out = []
     cg = ConjunctiveGraph(store=mem)
     for s, p, o, c in cg.quads((None, None, None)):
-        out.append((SUBJ_REV[s], PRED_REV[p], OBJ_REV[o], gn_rev[c.identifier]))
+        out.append((SUBJ_REV[s], PRED_REV[p], OBJ_REV[o], gn_rev.get(c.identifier, 98)))
     return sorted(set(out)), len(out)
 
 
@@ -153,6 +160,13 @@ def run_impl(case):
             else:
                 top.get_context(gn[c]).add((t(s), t(p), t(o)))
             dirty[w] = True
+        elif kind == "addf":
+            (s_, p_, o_, c_), extra = op[2], op[3]
+            foreign = Graph(identifier=gn[c_])          # a graph of ANOTHER store carrying the same name
+            for es, ep, eo in extra:
+                foreign.add((t(es), t(ep), t(eo)))
+            top.add((t(s_), t(p_), t(o_), foreign))     # _graph() copies its content in, then adds the triple
+            dirty[w] = True
         elif kind == "addn":
             qs = op[2]
             if cfg == "graph":
@@ -181,6 +195,9 @@ def run_impl(case):
         after, raw_n = _quads(mem, gn_rev, term_rev)
         if raw_n != len(after):
             viol.append(f"dup: store yields duplicate quads after op {k}")
+        if any(q[3] == 98 for q in after):
+            viol.append(f"graph: after op {k} the store holds quads in a graph no operation named: "
+                        f"{[q for q in after if q[3] == 98]}")
         obs.append(" ".join(",".join(map(str, q)) for q in after))
         A, B = set(after), set(before)
         mine = terr(w)
@@ -205,6 +222,7 @@ def run_impl(case):
             "key": repr((cfg, case["two"], case["init"], case["ops"])),
             "stats": {"ops": len(case["ops"]), "cfg_" + cfg: 1, "two_wrappers": int(case["two"]),
                       **{"op_" + o[0]: 1 for o in case["ops"]},
+                      "addf_foreign_graph_object": int(any(o[0] == "addf" for o in case["ops"])),
                       "addn_with_duplicate": int(any(o[0] == "addn" and len({tuple(q) for q in o[2]}) < len(o[2]) for o in case["ops"]))}}
 
 
@@ -222,6 +240,10 @@ def model_lines(case):
         elif op[0] == "addn":
             for q in op[2]:
                 lines.append(f"add {op[1]} " + " ".join(_w(x) for x in q))
+        elif op[0] == "addf":
+            for e in op[3]:
+                lines.append(f"add {op[1]} " + " ".join(_w(x) for x in list(e) + [op[2][3]]))
+            lines.append(f"add {op[1]} " + " ".join(_w(x) for x in op[2]))
         else:
             lines.append(f"{op[0]} {op[1]}")
         lines.append("obs")
@@ -233,7 +255,7 @@ def select_model_obs(case, out):
     i = 1 + len(case["init"])
     res = []
     for op in case["ops"]:
-        i += len(op[2]) if op[0] == "addn" else 1
+        i += len(op[2]) if op[0] == "addn" else (len(op[3]) + 1) if op[0] == "addf" else 1
         res.append(out[i])
         i += 1
     return res
@@ -245,6 +267,10 @@ def shrink(case):
         yield {**case, "ops": ops[:i] + ops[i + 1:]}
     for i in range(len(init)):
         yield {**case, "init": init[:i] + init[i + 1:]}
+    for i, op in enumerate(ops):
+        if op[0] == "addf" and op[3]:
+            for j in range(len(op[3])):
+                yield {**case, "ops": ops[:i] + [["addf", op[1], op[2], op[3][:j] + op[3][j + 1:]]] + ops[i + 1:]}
     for i, op in enumerate(ops):
         if op[0] == "addn" and len(op[2]) > 1:
             for j in range(len(op[2])):
@@ -259,4 +285,9 @@ def _m_readd(case, result):
     return kinds[:3] == ["remove", "add", "rollback"] and any(v.startswith("rollback") for v in result["viol"])
 
 
-MATCHERS = {"remove_readd_rollback": _m_readd}
+def _m_foreign(case, result):
+    """a quad add whose graph is a Graph object of another store, then rollback"""
+    return any(o[0] == "addf" for o in case["ops"]) and any(v.startswith("rollback") for v in result["viol"])
+
+
+MATCHERS = {"remove_readd_rollback": _m_readd, "foreign_graph_object": _m_foreign}
